@@ -1,6 +1,8 @@
 package main
 
 import (
+	"fmt"
+	"go/token"
 	"strings"
 
 	"golang.org/x/tools/go/ssa"
@@ -37,6 +39,7 @@ func runC20(c *Ctx) {
 		}
 	}
 	c.checkCopyOnEnqueueFor("O-4 buffers crossing goroutines are private copies", senders)
+	c.checkForeignGlobalWrites("O-5 process-wide library objects are not modified", scope)
 	if c.Thorough {
 		c.inferGuardCandidates(scope)
 	}
@@ -158,4 +161,98 @@ func itoa(n int) string {
 		b = append([]byte{'-'}, b...)
 	}
 	return string(b)
+}
+
+// checkForeignGlobalWrites: no repository function (package initialisers
+// excepted) stores through a package-level variable of another module or of
+// the standard library (http.DefaultTransport, http.DefaultClient, ...): such an
+// object is shared by every goroutine of the process and carries no lock the
+// repository could take, so a field write races with every concurrent use.
+func (c *Ctx) checkForeignGlobalWrites(rule string, scope []*ssa.Function) {
+	p := c.P
+	var foreign func(v ssa.Value, depth int) *ssa.Global
+	foreign = func(v ssa.Value, depth int) *ssa.Global {
+		if depth > 12 || v == nil {
+			return nil
+		}
+		switch x := v.(type) {
+		case *ssa.Global:
+			if x.Pkg != nil {
+				if _, isRepo := p.pkgRel[x.Pkg]; !isRepo {
+					return x
+				}
+			}
+			return nil
+		case *ssa.FieldAddr:
+			return foreign(x.X, depth+1)
+		case *ssa.IndexAddr:
+			return foreign(x.X, depth+1)
+		case *ssa.TypeAssert:
+			return foreign(x.X, depth+1)
+		case *ssa.ChangeInterface:
+			return foreign(x.X, depth+1)
+		case *ssa.ChangeType:
+			return foreign(x.X, depth+1)
+		case *ssa.MakeInterface:
+			return foreign(x.X, depth+1)
+		case *ssa.Extract:
+			return foreign(x.Tuple, depth+1)
+		case *ssa.UnOp:
+			if x.Op == token.MUL {
+				if g, ok := x.X.(*ssa.Global); ok {
+					// the pointer/interface held by the variable: what it points to is the shared object
+					return foreign(g, depth+1)
+				}
+				if al, ok := x.X.(*ssa.Alloc); ok {
+					if sv := singleStore(al); sv != nil {
+						return foreign(sv, depth+1)
+					}
+				}
+				// a field of a local object, read back right after it was assigned
+				// (s.transport = http.DefaultTransport...; s.transport.(...).X = ...)
+				if fa, ok := x.X.(*ssa.FieldAddr); ok {
+					b := x.Block()
+					for k := instrIndex(x) - 1; k >= 0; k-- {
+						if st, ok := b.Instrs[k].(*ssa.Store); ok {
+							if fb, ok := st.Addr.(*ssa.FieldAddr); ok && fb.Field == fa.Field && strip(fb.X) == strip(fa.X) {
+								return foreign(st.Val, depth+1)
+							}
+						}
+					}
+				}
+			}
+		case *ssa.Phi:
+			for _, e := range x.Edges {
+				if g := foreign(e, depth+1); g != nil {
+					return g
+				}
+			}
+		}
+		return nil
+	}
+	bad := 0
+	nStores := 0
+	for _, fn := range scope {
+		if fn.Name() == "init" || strings.HasPrefix(fn.Name(), "init#") {
+			continue
+		}
+		allInstrs(fn, func(in ssa.Instruction) {
+			st, ok := in.(*ssa.Store)
+			if !ok {
+				return
+			}
+			nStores++
+			// a store through the variable, or (outside main's start-up code) to the variable itself
+			if _, direct := st.Addr.(*ssa.Global); direct && fn.Name() == "main" && fn.Parent() == nil {
+				return // start-up configuration by the only goroutine (flag.Usage = ...)
+			}
+			if g := foreign(st.Addr, 0); g != nil {
+				bad++
+				c.viol(rule, p.FnName(fn)+" writes through "+g.Pkg.Pkg.Path()+"."+g.Name(), p.instrPos(st), "a field of a process-wide library object is assigned outside package initialisation: every goroutine using that object (for example a concurrent RoundTrip on http.DefaultTransport) reads the field without synchronisation; copy the object (Clone) before configuring it")
+			}
+		})
+	}
+	if bad == 0 {
+		c.ok(rule, "no store through a package-level variable of another module", "-", fmt.Sprintf("%d stores examined", nStores))
+	}
 }
